@@ -905,6 +905,37 @@ theorem erc20_leg_needs_allowance (pk : PairKind) (r : Roles) (a : Nat) (w : TW)
 
 
 
+/-- when the leg succeeds, exactly (contract-owned token): iff the sender's allowance to the precompile and its balance
+cover the amount — the handler has no other way to fail, and no other account's state enters the condition -/
+theorem erc20_leg_contract_owned_succeeds_iff (fx : Bool) (r : Roles) (a : Nat) (w : TW) :
+    (∃ w', runOps ⟨false, fx, true⟩ r a erc20Leg w = some (some w')) ↔ (a ≤ w.appr r.sender r.pre ∧ a ≤ w.tok r.sender) := by
+  rw [erc20_leg_program_spec]
+  unfold legSpec erc20TransferFrom bankSend
+  by_cases h : w.appr r.sender r.pre < a ∨ w.tok r.sender < a
+  · simp [h]; omega
+  · simp [h, FxVerif.Model.C10Tok.upd]
+    omega
+
+/-- … and for the coin-backed FX token (WFX): additionally the token contract's own account must hold the backing coins -/
+theorem erc20_leg_fx_succeeds_iff (r : Roles) (hd : r.distinct) (a : Nat) (w : TW) :
+    (∃ w', runOps ⟨true, true, false⟩ r a erc20Leg w = some (some w')) ↔
+      (a ≤ w.appr r.sender r.pre ∧ a ≤ w.tok r.sender ∧ a ≤ w.coin r.tokC) := by
+  obtain ⟨d1, d2, d3, d4, d5, d6⟩ := hd
+  rw [erc20_leg_program_spec]
+  unfold legSpec erc20TransferFrom erc20Burn bankSend
+  by_cases h : w.appr r.sender r.pre < a ∨ w.tok r.sender < a
+  · simp [h]; omega
+  · have d2' : r.mod ≠ r.sender := fun e => d2 e.symm
+    have d6' : r.tokC ≠ r.mod := fun e => d6 e.symm
+    simp [h, FxVerif.Model.C10Tok.upd, d2, d2', d6]
+    have hb : ¬ (w.tok r.mod + a < a) := by omega
+    simp only [hb, ↓reduceIte]
+    by_cases hc : w.coin r.tokC < a
+    · simp [hc]
+    · simp [hc, FxVerif.Model.C10Tok.upd]
+      omega
+example : (⟨1, 7, 8, 9⟩ : Roles).distinct := by simp [Roles.distinct]
+
 /-- `bridgeCall` converts the tokens of its list with keeper power (`EvmToBaseCoin(ctx, token, amount, holder)`: no ERC-20
 allowance is consulted): in the regenerated closure the holder handed to EVERY such call is `contract.Caller()`, and the
 refund address goes to `AddOutgoingBridgeCall` only -/
